@@ -57,7 +57,7 @@ def run(expr):
         return "%s evaluates to %r with the DSL, %r with ordinary arithmetic" % (expr, got, want)
     return None
 
-expr = '(-vsum)'
+expr = '(lambda n: ((-n) + (n * 2.0)))((-(a + b)))'
 bad = run(expr)
 print("FAIL: " + bad if bad else "PASS")
 sys.exit(1 if bad else 0)
